@@ -228,6 +228,23 @@ func l3Taproot(c *l3Collector) {
 				run("L3/tapscript-checksigadd", name+" valid sig", s2, 0xc0, [][]byte{signSchnorr(keyA, dd)}, nil, tapSets)
 				run("L3/tapscript-checksigadd", name+" empty sig", s2, 0xc0, [][]byte{{}}, nil, tapSets)
 			}
+			// CHECKSIGADD against every key shape, with a valid, an empty and a garbage signature
+			for _, ks := range tkShapes {
+				for _, tail := range []struct {
+					name string
+					b    []byte
+				}{{"1 NUMEQUAL", []byte{0x51, refscript.OP_NUMEQUAL}}, {"0 NUMEQUAL", []byte{0x00, refscript.OP_NUMEQUAL}}} {
+					s2 := cat([]byte{0x00}, push(ks.b), []byte{refscript.OP_CHECKSIGADD}, tail.b)
+					pk2, _ := tapLeafOutput(numsKey, 0xc0, s2)
+					lh2 := refscript.TapLeafHash(0xc0, s2)
+					dd, _ := env.tapDigest(pk2, 0, nil, &lh2, 0xffffffff)
+					sgs := map[string][]byte{"valid": signSchnorr(keyA, dd), "empty": {}, "garbage64": rep(3, 64), "1-byte": {1}}
+					for _, sn := range sortedKeys(sgs) {
+						sg := sgs[sn]
+						run("L3/tapscript-checksigadd", fmt.Sprintf("0 <key=%s> CHECKSIGADD %s sig=%s", ks.name, tail.name, sn), s2, 0xc0, [][]byte{sg}, nil, tapSets)
+					}
+				}
+			}
 			// CHECKSIGADD outside tapscript, CHECKMULTISIG inside
 			for _, wk := range ecdsaWraps {
 				p, s, w := wrap(wk, cat([]byte{0, 0}, push(keyA.comp), []byte{refscript.OP_CHECKSIGADD, refscript.OP_NOT}), nil)
